@@ -1,5 +1,6 @@
 (* C04 — property theorems only: every error is rendered as a well-formed S3 error document with the table's status. *)
 From S3V Require Import lib.Bytes model.XmlSchema model.ErrorDoc proofs.ErrorDocProofs gen.ErrorTable.
+From S3V Require Import model.Router model.Bindings model.PanicLedger gen.PanicSites gen.Routes gen.OpBindings.
 Open Scope N_scope.
 
 (* the document written for an error is read back by the independent reader to exactly its code, message and request
@@ -46,6 +47,20 @@ Example C04_documented_status_refuted :
   /\ In (b "MissingAttachment", 400) gen_error_spec /\ table_status gen_error_table (b "MissingAttachment") = None.
 Proof. vm_compute. repeat split; auto 300. Qed.
 Print Assumptions C04_documented_status_refuted.
+
+(* obligations on the potential panic sites translated from today's source (unwrap / expect / panic! / unreachable! /
+   assert! outside test code): every site is in the reviewed ledger, and the three families that depend on other tables
+   are discharged on those tables - an operation that reads an XML or string payload is only routed with the full body
+   buffered, and an operation that reads bucket (and key) from the path is only routed from a bucket (object) path *)
+Theorem C04_panic_sites_ledgered : ledger_covers gen_panic_sites = true.
+Proof. vm_compute. reflexivity. Qed.
+Print Assumptions C04_panic_sites_ledgered.
+Theorem C04_full_body_ok : full_body_ok gen_routes gen_code_inputs = true.
+Proof. vm_compute. reflexivity. Qed.
+Print Assumptions C04_full_body_ok.
+Theorem C04_path_kinds_ok : path_kinds_ok gen_routes gen_code_inputs = true.
+Proof. vm_compute. reflexivity. Qed.
+Print Assumptions C04_path_kinds_ok.
 
 Example C04_example :
   show_render (render gen_error_table false {| e_code := b "NoSuchKey"; e_message := Some (b "a<b & ""c"""); e_request_id := None;
